@@ -47,7 +47,8 @@ def make_hierarchy(E, n):
         for i in order:
             anc = [j for j in range(n) if j != i and M[i][j]]
             anc.sort(key=lambda j: -sum(1 for k in range(n) if M[j][k]))     # most specific first
-            built[i] = type('X%d' % i, tuple(built[j] for j in anc) or (Exception,), {})
+            # (all classes carry the same __name__: distinct types are told apart by identity)
+            built[i] = type('X', tuple(built[j] for j in anc) or (Exception,), {'_idx': i})
         classes.extend(built[i] for i in range(n))
         return classes, M
 
@@ -66,7 +67,7 @@ def make_hierarchy(E, n):
             return cls.__subclasscheck__(type(inst))
 
     for i in range(n):
-        classes.append(SymMeta('X%d' % i, (Exception,), {}))
+        classes.append(SymMeta('X', (Exception,), {'_idx': i}))
     return classes, M
 
 
